@@ -206,6 +206,10 @@ SNIPPETS = textwrap.dedent('''
                 out.append(fid)
         return out
 
+    def s_str_format(a, b, name):
+        return ["{} < {} < {}".format(a, name, b), "{0}-{1}-{0}".format(a, b), "x={v} {n}".format(v=a, n=name),
+                "Slicing " + str(name) + " = " + format(a) + " ", format(b, "05d"), "{:05d}".format(a)]
+
     def s_stack_min(a):
         x = np.arange(a * a).reshape(a, a)
         y = x[::-1, :]
@@ -300,6 +304,8 @@ def rnd_inputs(name, rng):
         return [R(1, 4), R(1, 4)]
     if name == "s_stack_min":
         return [R(1, 4)]
+    if name == "s_str_format":
+        return [R(0, 99), R(0, 99), rng.choice(["x", "temp", "Y(H2)"])]
     if name == "s_minmax_default":
         return [[R(0, 9) for _ in range(R(0, 4))], R(-3, 3)]
     if name == "s_last_or_raise":
